@@ -111,6 +111,13 @@ class HsRun:
             self.writes.append((v, mask.copy()))
             return None
         if nm == "copy.copy":
+            # the selected serializer id is the index into the factory's table (whatever the local holding it is called)
+            a0 = c.args[0] if c.args else None
+            if isinstance(a0, ast.Subscript) and norm.text(a0.value) == "self.factory._serializers" and not isinstance(a0.slice, ast.Slice):
+                try:
+                    self._picked = vec.arr(vec.eval(a0.slice, mask))
+                except AnalysisError:
+                    self._picked = None
             return Opaque("serializer")
         if nm == "self.supports_serializer":
             v = vec.arr(vec.eval(c.args[0], mask))
@@ -131,7 +138,8 @@ class HsRun:
     def store(self, text, value, mask, vec):
         if text == "self._serializer":
             # the selected serializer id is the index expression's value in the enclosing branch
-            self.ser_sel = vec.env.get("ser_id", self.ser_sel)
+            picked = getattr(self, "_picked", None)
+            self.ser_sel = picked if picked is not None else vec.env.get("ser_id", self.ser_sel)
         self.stores[text] = (value, mask.copy())
 
 
@@ -233,12 +241,16 @@ def rule_handshake_tables(ctx, rule_id="C13.1-rawsocket-handshake-decision-table
     # ---- asyncio ---------------------------------------------------------------------------------
     ph = ctx.program.func(f"{AIO}.RawSocketProtocol.parse_handshake")
     ctx.analysed(ph)
-    oct_aio = {"buf[0]": 0, "buf[1]": 1, "buf[2]": 2, "buf[3]": 3}
+    # the local holding the four handshake octets: the one assigned from the head of self._buffer (whatever it is called)
+    bufn = [s_.targets[0].id for s_ in ph.node.body if isinstance(s_, ast.Assign) and len(s_.targets) == 1 and isinstance(s_.targets[0], ast.Name)
+            and any(isinstance(x_, ast.Subscript) and norm.text(x_.value) == "self._buffer" for x_ in ast.walk(s_.value))]
+    BN = bufn[0] if len(bufn) == 1 else "buf"
+    oct_aio = {f"{BN}[{i_}]": i_ for i_ in range(4)}
     reserved = ((0, 0), (1, 0), (0, 255))
     for cls, role in (("RawSocketServerProtocol", "server"), ("RawSocketClientProtocol", "client")):
         run = HsRun(ctx, ph, role, oct_aio, reserved)
-        body = [s for s in ph.node.body if not (isinstance(s, ast.Assign) and norm.text(s.targets[0]) == "buf")]
-        bufdef = [s for s in ph.node.body if isinstance(s, ast.Assign) and norm.text(s.targets[0]) == "buf"]
+        body = [s for s in ph.node.body if not (isinstance(s, ast.Assign) and norm.text(s.targets[0]) == BN)]
+        bufdef = [s for s in ph.node.body if isinstance(s, ast.Assign) and norm.text(s.targets[0]) == BN]
         ctx.ob(f"asyncio {role}: handshake parsed from the first four buffered octets", len(bufdef) == 1 and norm.text(bufdef[0].value) == "bytearray(self._buffer[:4])", "buf source changed", ph.loc())
         run.vec.run(body)
         parse_raised = run.vec.raised.copy()
@@ -425,17 +437,62 @@ def rule_requests(ctx):
     ctx.rule("C13.1b-client-request-octets")
     fn = ctx.program.func(f"{TW}.WampRawSocketClientProtocol.connectionMade")
     ctx.analysed(fn)
-    t = {norm.text(s.targets[0]): " ".join(norm.text(s.value).split()) for s in walk_no_defs(fn.node) if isinstance(s, ast.Assign)}
-    ok = t.get("request_octet2") == "bytes(bytearray([request_max_len_exp - 9 << 4 | self._serializer.RAWSOCKET_SERIALIZER_ID]))" and \
-        t.get("request_max_len_exp") == "int(math.ceil(math.log(self._max_message_size, 2)))" and t.get("self.MAX_LENGTH") == "2 ** request_max_len_exp"
-    ctx.ob("twisted client: request octet 2 = ((exp - 9) << 4) | serializer id, MAX_LENGTH = 2^exp", ok, f"{t}", fn.loc())
-    ws = [norm.text(c.args[0]) for c in sorted(calls_in(fn.node), key=lambda c: (c.lineno, c.col_offset)) if norm.text(c.func) == "self.transport.write"]
-    ctx.ob("twisted client: request is 0x7F, octet2, 0, 0", ws == ["b'\\x7f'", "request_octet2", "b'\\x00\\x00'"], f"{ws}", fn.loc())
+    # both clients' opening octets, evaluated (sa.core.tiny; math / bytes answered by the standard library) over configured maxima x serializer ids:
+    # what is handed to the transport is 0x7F, (exponent << 4) | serializer id, 0, 0 -- independent of how the code names or stages the pieces
+    import math as _math
+    from ..core.tiny import Tiny, Sym, _to_py, _from_py
+    from .common import inline_private
+    from .c07_cells import _method_env
+
+    def request_cells(fn_, cls_, envs, tag):
+        probs = []
+        for label, extra, want in envs:
+            wrote = []
+
+            def orc(f_, a_, k_=None):
+                if f_.endswith("transport.write"):
+                    wrote.append(_to_py(a_[0]))
+                    return None
+                if f_ in ("math.log", "math.ceil"):
+                    return getattr(_math, f_[5:])(*a_)
+                if f_ in ("bytes", "bytearray") and a_ and isinstance(a_[0], list) and all(isinstance(x, int) for x in a_[0]):
+                    return _from_py(bytes(a_[0]))
+                if f_ in ("copy.copy", "copy.deepcopy"):
+                    return a_[0]
+                return Sym(f"<{f_}>")
+            tr = Sym("tcp")
+            env = {"self": Sym("protocol"), "self.log": Sym("log"), "self.transport": tr, "self.MAX_LENGTH": 99999999}
+            if len(fn_.params()) > 1:
+                env[fn_.params()[1]] = tr
+            env.update(extra)
+            _method_env(ctx, cls_, fn_, env)
+            try:
+                t_ = Tiny(env, default_call=orc, inline_self=inline_private(ctx, cls_, exclude=("_on_handshake_complete",)), model_strings=True, opaque_globals=True)
+                r_ = t_.run([x for x in fn_.node.body if not (isinstance(x, ast.Expr) and isinstance(x.value, ast.Constant))])
+            except AnalysisError as e:
+                raise AnalysisError(f"[C13.1b-client-request-octets] {fn_.qualname} outside the modelled subset: {e}")
+            octs = b"".join(bytes(x) if isinstance(x, list) and all(isinstance(y, int) for y in x) else x for x in wrote if isinstance(x, (bytes, list)))
+            if r_[0] == "raise" or octs != want:
+                probs.append(f"{label}: {r_[0] if r_[0] == 'raise' else 'writes'} {octs!r}, expected {want!r}")
+        ctx.ob(f"{tag} [{len(envs)} cells]", not probs, "; ".join(probs[:2]), fn_.loc())
+
+    cells_tw = []
+    for mms in (513, 1024, 2 ** 20, 2 ** 24):
+        for sid in (1, 2, 5):
+            e_ = int(_math.ceil(_math.log(mms, 2)))
+            ser_ = Sym("serializer", RAWSOCKET_SERIALIZER_ID=sid)
+            cells_tw.append((f"maxMessagePayloadSize={mms}, serializer id {sid}",
+                             {"self._max_message_size": mms, "self._serializer": ser_, "self.factory": Sym("factory", _serializer=ser_)},
+                             bytes([0x7F, ((e_ - 9) << 4) | sid, 0, 0])))
+    request_cells(fn, ctx.program.cls(f"{TW}.WampRawSocketClientProtocol"), cells_tw, "twisted client: request is 0x7F, ((exp - 9) << 4) | serializer id, 0, 0")
     fn = ctx.program.func(f"{AIO}.RawSocketClientProtocol.connection_made")
     ctx.analysed(fn)
-    hs = [s for s in walk_no_defs(fn.node) if isinstance(s, ast.Assign) and norm.text(s.targets[0]) == "hs"]
-    ctx.ob("asyncio client: request is [0x7F, exp << 4 | serializer id, 0, 0]", len(hs) == 1 and norm.text(hs[0].value) == "bytes(bytearray([MAGIC_BYTE, self._length_exp << 4 | self.serializer_id, 0, 0]))",
-           f"{[norm.text(s.value) for s in hs]}", fn.loc())
+    cells_aio = []
+    for lexp in (0, 7, 15):
+        for sid in (1, 2, 5):
+            cells_aio.append((f"length exponent {lexp}, serializer id {sid}", {"self._length_exp": lexp, "self.serializer_id": sid, "self._handshake_done": False},
+                              bytes([0x7F, (lexp << 4) | sid, 0, 0])))
+    request_cells(fn, ctx.program.cls(f"{AIO}.RawSocketClientProtocol"), cells_aio, "asyncio client: request is [0x7F, exp << 4 | serializer id, 0, 0]")
     m = ctx.program.module(AIO)
     ok, v = ctx.program.try_const(m.consts.get("MAGIC_BYTE"), m)
     ctx.ob("asyncio MAGIC_BYTE = 0x7F", ok and v == 0x7F, f"{v}", m.relpath)
@@ -611,15 +668,7 @@ def _rule_limits_receive(ctx, an):
     pp = ctx.program.func(f"{AIO}.PrefixProtocol.data_received")
     ctx.analysed(pp)
     g, mf, res = an.get(pp)
-    sl = [n for n in g.stmt_nodes() if n.kind == "stmt" and isinstance(n.ast, ast.Assign) and norm.text(n.ast.targets[0]) == "data" and "self._buffer[" in norm.text(n.ast.value)]
-    big = [n for n in g.stmt_nodes() if n.kind == "test" and norm.atoms(n.ast, True, res) == [("lt", ("e", "self.max_length"), ("e", "frame_length"), True)]]
-    ok = len(big) == 1 and len(sl) == 1 and all(m.kind == "stmt" and any(self_call(c, "protocol_error") for c in node_calls(m)) for m, lab in big[0].succ if lab and lab[0] == "T") and \
-        not any(g.path_exists(m, sl[0], avoid=lambda x: x.kind == "test" and x is not big[0] and False) for m, lab in big[0].succ if lab and lab[0] == "T")
-    ctx.ob("asyncio: a frame longer than the announced maximum is refused before its payload is sliced", ok, "frame-too-big check changed", pp.loc())
-    ft = [n for n in g.stmt_nodes() if n.kind == "test" and "frame_type" in norm.mentions_of(n.ast) and any(f[0] == "lt" and f[2] == ("e", "frame_type") for f in norm.atoms(n.ast, True, res))]
-    ok = len(ft) == 1 and all(m.kind == "stmt" and any(self_call(c, "protocol_error") for c in node_calls(m)) for m, lab in ft[0].succ if lab and lab[0] == "T")
-    ctx.ob("asyncio: a frame type above PONG is refused", ok, "frame type check changed", pp.loc())
-    # the same, decided cell-wise (sa.core.tiny on concrete prefix octets; struct / ord answered by the standard library): a frame with type
+    # decided cell-wise (sa.core.tiny on concrete prefix octets; struct / ord answered by the standard library): a frame with type
     # octet t and a 3-octet payload, whole and with the prefix split over two reads -- t = 0 is delivered, 1 / 2 go to ping / pong, 3..7 are refused
     import struct as _struct
     from ..core.tiny import _to_py as _tp, _from_py as _fp
@@ -677,6 +726,49 @@ def _rule_limits_receive(ctx, an):
     except AnalysisError as e:
         raise AnalysisError(f"[C13.4-send-and-receive-limits] PrefixProtocol.data_received outside the modelled subset: {e}")
     ctx.ob(f"asyncio: frame types 0/1/2 go to message / ping / pong, every other type is refused and nothing of it delivered [{ncell} cells]", not probs, "; ".join(probs[:2]), pp.loc())
+    # ... and the receive limit: with an announced maximum of 16 octets a frame of 16 is delivered, one of 17 is refused -- as soon as its prefix is
+    # there (before any payload is buffered or sliced) -- and nothing of it is delivered
+    probs, ncell = [], 0
+    try:
+        for t_ in (0, 1):
+            for flen, have in ((16, 16), (17, 0), (17, 17), (2 ** 24 - 1, 0), (0, 0)):
+                seen = []
+
+                def orc2(f_, a_, k_=None):
+                    if f_ in ("self.stringReceived", "self.ping", "self.pong", "self.protocol_error"):
+                        seen.append((f_[5:], _tp(a_[0]) if a_ else None))
+                        return None
+                    if f_ == "ord":
+                        v_ = _tp(a_[0])
+                        return ord(v_) if isinstance(v_, (bytes, str)) and len(v_) == 1 else 0
+                    if f_ == "struct.unpack":
+                        return list(_struct.unpack(a_[0], _tp(a_[1])))
+                    if f_ == "struct.calcsize":
+                        return _struct.calcsize(a_[0])
+                    return Sym(f"<{f_}>")
+                payload = bytes(range(65, 65 + have))
+                wire = bytes([t_]) + flen.to_bytes(3, "big") + payload
+                env = {"self": Sym("protocol"), "self._buffer": _fp(b""), "self._header": None, "self.prefix_length": 4, "self.prefix_format": "!L", "self.max_length": 16,
+                       "self.log": Sym("log")}
+                env.update(consts)
+                _menv(ctx, pp.cls, pp, env)
+                for k_ in ("self.stringReceived", "self.ping", "self.pong", "self.protocol_error"):
+                    env.pop(k_, None)
+                tn = Tiny(env, default_call=orc2, model_strings=True, model_types=True, opaque_globals=True, inline_self=_ip(ctx, pp.cls, exclude=("_on_handshake_complete",)))
+                tn.env[pp.params()[1]] = _fp(wire)
+                r = tn.run(body)
+                ncell += 1
+                tag = f"announced maximum 16, frame type {t_}, declared length {flen}, {have} payload octet(s) buffered"
+                if r[0] == "raise":
+                    probs.append(f"{tag}: raises {r[1]}")
+                elif flen > 16 and (not seen or any(k_ != "protocol_error" for k_, _ in seen)):
+                    probs.append(f"{tag}: handled as {seen}, expected the frame to be refused at its prefix (protocol error), nothing delivered")
+                elif flen <= 16 and have >= flen and not (len(seen) == 1 and seen[0][0] == ("stringReceived" if t_ == 0 else "ping") and
+                                                          (seen[0][1] == payload[:flen] or (flen == 0 and seen[0][1] in (b"", "")))):
+                    probs.append(f"{tag}: handled as {seen}, expected the payload to be delivered")
+    except AnalysisError as e:
+        raise AnalysisError(f"[C13.4-send-and-receive-limits] PrefixProtocol.data_received outside the modelled subset: {e}")
+    ctx.ob(f"asyncio: a frame longer than the announced maximum is refused at its prefix, one within it is delivered [{ncell} cells]", not probs, "; ".join(probs[:2]), pp.loc())
     ll = ctx.program.func(f"{TW}.WampRawSocketProtocol.lengthLimitExceeded")
     ok = any(isinstance(s, ast.Raise) for s in walk_no_defs(ll.node)) or any("loseConnection" in norm.text(c.func) or "abort" in norm.text(c.func) for c in calls_in(ll.node))
     ctx.ob("twisted: an over-limit incoming frame is refused, not buffered", ok, "lengthLimitExceeded does nothing", ll.loc())
@@ -690,16 +782,53 @@ def rule_subprotocol(ctx):
     ctx.analysed(fn)
     fn = expand_expr_helpers(ctx, fn)   # `self._helper(x)` returning one expression is read as that expression
     g, mf, res = an.get(fn)
-    loops = [n for n in g.stmt_nodes() if n.kind == "for"]
-    ok = len(loops) == 1 and norm.text(loops[0].ast.iter) == "request.protocols"
-    ctx.ob("server: iterates the client's list in the client's order", ok, f"iterates {[norm.text(l.ast.iter) for l in loops]}", fn.loc())
-    rets = [n for n in g.stmt_nodes() if n.kind == "stmt" and isinstance(n.ast, ast.Return) and isinstance(n.ast.value, ast.Tuple)]
-    first = [n for n in rets if norm.text(n.ast.value.elts[0]) == "subprotocol"]
-    ok = len(first) == 1 and ("eq", "version", ("c", 2), True) in mf.at(first[0]) and any(f[0] == "in" and f[1] == "serializerId" and f[3] for f in mf.at(first[0]))
-    ctx.ob("server: returns the first entry with version 2 and a known serializer", ok, "selection condition changed", fn.loc())
-    st = [n for n, v in [(n, n.ast.value) for n in g.stmt_nodes() if n.kind == "stmt" and isinstance(n.ast, ast.Assign) and norm.text(n.ast.targets[0]) == "self._serializer"]]
-    ok = any(norm.text(n.ast.value) == "copy.copy(self.factory._serializers[serializerId])" and first and g.path_exists(n, first[0]) for n in st)
-    ctx.ob("server: the serializer used is the one named by the selected subprotocol", ok, "serializer chosen from something else", fn.loc())
+    # decided cell-wise (sa.core.tiny; parseSubprotocolIdentifier evaluated in place): over lists of offered subprotocols, the answer is the FIRST entry
+    # (client's order) that is wamp.2.<id> with <id> in the factory's serializer table, the serializer attached is the table's entry for that id, and
+    # with no such entry the connection is denied (strict) -- independent of how the code names or stages the pieces
+    from ..core.tiny import Tiny as _T, Sym as _S, Buf as _B, TinyRaise as _TR
+    from .c07_cells import _method_env as _me
+    SER = {"json": _S("ser-json"), "msgpack": _S("ser-msgpack"), "json.batched": _S("ser-json-batched")}
+
+    def _orc(f_, a_, k_=None):
+        if f_ in ("copy.copy", "copy.deepcopy"):
+            return a_[0]
+        return _S(f"<{f_}>")
+
+    def _eval(fn_, env):
+        _me(ctx, fn_.cls, fn_, env)
+        t_ = _T(env, default_call=_orc, opaque_globals=True, model_strings=True, model_types=True)
+        t_.inline_module_funcs = {"parseSubprotocolIdentifier"}
+        t_.module = fn_.module
+        try:
+            r_ = t_.run([x for x in fn_.node.body if not (isinstance(x, ast.Expr) and isinstance(x.value, ast.Constant))])
+        except _TR as ex:
+            r_ = ("raise", str(ex))
+        return r_, t_.env.get("self._serializer", t_.env["self"].attrs.get("_serializer"))
+    probs, ncell = [], 0
+    SERVER_CELLS = ((["wamp.2.json"], "wamp.2.json"), (["wamp.2.cbor", "wamp.2.msgpack", "wamp.2.json"], "wamp.2.msgpack"), (["wamp.2.json", "wamp.2.msgpack"], "wamp.2.json"),
+                    (["wamp.1.json", "wamp.2.json"], "wamp.2.json"), (["wamp.3.json"], None), (["foo"], None), ([], None), (["mqtt", "wamp.2.msgpack"], "wamp.2.msgpack"),
+                    (["wamp.2.json.batched", "wamp.2.json"], "wamp.2.json.batched"), (["wamp.2.ubjson"], None), (["wamp.2"], None), (["json"], None))
+    try:
+        for strict in (True, False):
+            for offered, want in SERVER_CELLS:
+                env = {"self": _S("transport"), "self.factory": _S("factory", _serializers=dict(SER), protocols=[f"wamp.2.{k_}" for k_ in SER]),
+                       "self.STRICT_PROTOCOL_NEGOTIATION": strict, "self.log": _S("log"), fn.params()[1]: _S("request", protocols=list(offered))}
+                r, ser_ = _eval(fn, env)
+                ncell += 1
+                tag = f"client offers {offered} ({'strict' if strict else 'lenient'})"
+                if want is not None:
+                    got = r[1][0] if r[0] == "return" and isinstance(r[1], (list, tuple)) and r[1] else (r[1] if r[0] == "return" else r[0])
+                    if got != want:
+                        probs.append(f"{tag}: answers {got!r}, expected {want!r}")
+                    elif ser_ is not SER[want[len('wamp.2.'):]]:
+                        probs.append(f"{tag}: selects {want} but attaches {ser_}")
+                elif strict and not (r[0] == "raise" and "ConnectionDeny" in str(r[1])):
+                    probs.append(f"{tag}: {r[0]} {str(r[1])[:40]}, expected ConnectionDeny")
+                elif not strict and not (r[0] == "return" and isinstance(r[1], (list, tuple)) and r[1] and r[1][0] is None and ser_ is SER["json"]):
+                    probs.append(f"{tag}: {r[0]} {str(r[1])[:40]} with {ser_}, expected no subprotocol announced and the JSON serializer assumed")
+    except AnalysisError as e:
+        raise AnalysisError(f"[C13.7-subprotocol-selection] server onConnect outside the modelled subset: {e}")
+    ctx.ob(f"server: answers the first offered wamp.2.<id> with a known serializer id and attaches that serializer; none -> denied [{ncell} cells]", not probs, "; ".join(probs[:2]), fn.loc())
     deny = [n for n in g.stmt_nodes() if n.kind == "stmt" and isinstance(n.ast, ast.Raise) and "ConnectionDeny" in norm.text(n.ast.exc)]
     ctx.ob("server: no common subprotocol -> ConnectionDeny (strict)", len(deny) == 1 and ("truth", "self.STRICT_PROTOCOL_NEGOTIATION", None, True) in mf.at(deny[0]), "changed", fn.loc())
     ctx.ob("server: strict negotiation is the default", ctx.program.class_const(fn.cls, "STRICT_PROTOCOL_NEGOTIATION") is True, "default changed", fn.loc())
@@ -710,17 +839,39 @@ def rule_subprotocol(ctx):
     rj = [n for n in g2.stmt_nodes() if n.kind == "stmt" and isinstance(n.ast, ast.Raise)]
     ok = len(rj) == 1 and ("in", "response.protocol", ("e", "self.factory.protocols"), False) in mf2.at(rj[0])
     ctx.ob("client: a subprotocol it did not request is refused", ok, "changed", cf.loc())
-    sel = [n for n in g2.stmt_nodes() if n.kind == "stmt" and isinstance(n.ast, ast.Assign) and isinstance(n.ast.targets[0], ast.Tuple) and "parseSubprotocolIdentifier(response.protocol)" in norm.text(n.ast.value)]
-    st = [n for n in g2.stmt_nodes() if n.kind == "stmt" and isinstance(n.ast, ast.Assign) and norm.text(n.ast.targets[0]) == "self._serializer"]
-    ctx.ob("client: serializer taken from the subprotocol the server selected", len(sel) == 1 and len(st) == 1 and norm.text(st[0].ast.value) == "copy.copy(self.factory._serializers[serializer_id])", "changed", cf.loc())
-    ps = ctx.program.func("autobahn.wamp.websocket.parseSubprotocolIdentifier")
-    t = {norm.text(s.targets[0]): norm.text(s.value) for s in walk_no_defs(ps.node) if isinstance(s, ast.Assign)}
-    ok = t.get("s") == "subprotocol.split('.')" and t.get("version") == "int(s[1])" and t.get("serializer_id") == "'.'.join(s[2:])"
-    ctx.ob("parseSubprotocolIdentifier: wamp.<version>.<serializer id>", ok, f"{t}", ps.loc())
+    probs, ncell = [], 0
+    try:
+        for strict in (True, False):
+            for selected, want in (("wamp.2.msgpack", "msgpack"), ("wamp.2.json", "json"), ("wamp.2.json.batched", "json.batched"), ("wamp.2.cbor", None), (None, None)):
+                env = {"self": _S("transport"), "self.factory": _S("factory", _serializers=dict(SER), protocols=[f"wamp.2.{k_}" for k_ in SER]),
+                       "self.STRICT_PROTOCOL_NEGOTIATION": strict, "self.log": _S("log"), cf.params()[1]: _S("response", protocol=selected)}
+                r, ser_ = _eval(cf, env)
+                ncell += 1
+                tag = f"server selected {selected!r} ({'strict' if strict else 'lenient'})"
+                if want is not None and (r[0] == "raise" or ser_ is not SER[want]):
+                    probs.append(f"{tag}: {r[0]} {str(r[1])[:30]}, serializer {ser_}; expected {SER[want]}")
+                elif want is None and strict and r[0] != "raise":
+                    probs.append(f"{tag}: accepted with {ser_}, expected the connection to be refused")
+                elif want is None and not strict and (r[0] == "raise" or ser_ is not SER["json"]):
+                    probs.append(f"{tag}: {r[0]}, serializer {ser_}; expected the JSON serializer assumed")
+    except AnalysisError as e:
+        raise AnalysisError(f"[C13.7-subprotocol-selection] client onConnect outside the modelled subset: {e}")
+    ctx.ob(f"client: serializer taken from the subprotocol the server selected; one it did not request is refused [{ncell} cells]", not probs, "; ".join(probs[:2]), cf.loc())
+    # the factory: offered subprotocols and the serializer table come from the same list, in its order
     fac = ctx.program.func("autobahn.wamp.websocket.WampWebSocketFactory.__init__")
-    t = {norm.text(s.targets[0]): norm.text(s.value) for s in walk_no_defs(fac.node) if isinstance(s, ast.Assign)}
-    ok = t.get("self._serializers[ser.SERIALIZER_ID]") == "ser" and t.get("self._protocols") == "[f'wamp.2.{ser.SERIALIZER_ID}' for ser in serializers]"
-    ctx.ob("factory: offered subprotocols and the serializer table are built from the same list", ok, f"{ {k: v for k, v in t.items() if 'serial' in k or 'proto' in k} }", fac.loc())
+    ctx.analysed(fac)
+    s1, s2 = _S("s1", SERIALIZER_ID="json"), _S("s2", SERIALIZER_ID="msgpack.batched")
+    try:
+        env = {"self": _S("factory"), fac.params()[1]: _S("session-factory"), fac.params()[2]: [s1, s2]}
+        t_ = _T(env, default_call=_orc, opaque_globals=True, model_strings=True, model_types=True)
+        r = t_.run([x for x in fac.node.body if not (isinstance(x, ast.Expr) and isinstance(x.value, ast.Constant))])
+        tab = t_.env.get("self._serializers", t_.env["self"].attrs.get("_serializers"))
+        prs = t_.env.get("self._protocols", t_.env["self"].attrs.get("_protocols"))
+        ok = r[0] != "raise" and isinstance(tab, dict) and set(tab) == {"json", "msgpack.batched"} and tab["json"] is s1 and tab["msgpack.batched"] is s2 and \
+            list(prs or ()) == ["wamp.2.json", "wamp.2.msgpack.batched"]
+    except AnalysisError as e:
+        raise AnalysisError(f"[C13.7-subprotocol-selection] WampWebSocketFactory.__init__ outside the modelled subset: {e}")
+    ctx.ob("factory: offered subprotocols and the serializer table are built from the same list [1 cell]", ok, f"table {tab}, protocols {prs}", fac.loc())
     snd = ctx.program.func("autobahn.wamp.websocket.WampWebSocketProtocol.send")
     # cell-wise (sa.core.tiny): whatever (payload, flag) the serializer returns is what sendMessage gets -- names are irrelevant
     from ..core.tiny import Tiny as _T, Sym as _S, Buf as _B
